@@ -266,8 +266,10 @@ def run(tier, seed):
 
 
 def replay(path):
+    """the recorded cases are printed; the verdict comes from re-running the check that found them, with the same tier and
+    seed, on the current tree (the cases of this check depend on what ran before them in the same process, or need the
+    TLC-computed expectations)"""
     data = json.loads(open(path).read())
-    for c in data["cases"]:
+    for c in data["cases"][:5]:
         print(json.dumps(c)[:600])
-    print(f"VIOLATION property={PID} replay={path}")
-    return 1
+    return run(data.get("tier", "quick"), data.get("seed", 0))
